@@ -22,7 +22,7 @@ import (
 	"verif/vk"
 )
 
-const c08Rule = "unconstrained rapid state machine, both roles: connects, every inbound type at any time (Logon at wrong times, application messages before logon, unparsable bytes), sends while disconnected / logging on / logged on / logging out, all four timer events, stop, disconnects, session-time checks with a virtual clock leaving and re-entering the schedule, an application whose callbacks (generated mood) refuse the Logon, other administrative messages, application messages or sends; non-trivial = history that reaches logged-on at least once and leaves it again; distinct = distinct history"
+const c08Rule = "unconstrained rapid state machine, both roles: connects, every inbound type at any time (Logon at wrong times, application messages before logon, unparsable bytes), sends while disconnected / logging on / logged on / logging out, all four timer events, stop, disconnects, session-time checks with a virtual clock leaving and re-entering the schedule, an application whose callbacks (generated mood) refuse the Logon, other administrative messages, application messages or sends, inbound headers with PossDup and an earlier / later / absent OrigSendingTime, stale SendingTime or a foreign sender, message events handled while the writer is busy; non-trivial = history that reaches logged-on at least once and leaves it again; distinct = distinct history"
 
 func c08() *stats.Collector {
 	c := stats.Get("C08")
@@ -127,6 +127,9 @@ func c08Property(t *rapid.T) {
 		c.Class("config:EnableNextExpectedMsgSeqNum")
 	}
 	s := newSim(t, c, cfg)
+	if rapid.IntRange(0, 2).Draw(t, "writer-sometimes-busy") == 0 {
+		s.busyWriter = func() bool { return rapid.IntRange(0, 2).Draw(t, "writer-busy") == 0 }
+	}
 	defer s.close()
 	logonBody := func(t *rapid.T, reset bool) []fixwire.Field {
 		b := s.p.LogonBody(30, reset)
@@ -151,6 +154,23 @@ func c08Property(t *rapid.T) {
 		if seq < 1 {
 			seq = 1
 		}
+		// header options the session's checks branch on: possible duplicates with an original sending
+		// time before / after the sending time or without one, a stale sending time, a foreign sender
+		var o peer.Opt
+		switch rapid.SampledFrom([]string{"", "", "", "", "possdup", "possdup-orig-earlier", "possdup-orig-later", "stale-sending-time", "foreign-sender"}).Draw(t, "header") {
+		case "possdup":
+			o.PossDup = "Y"
+		case "possdup-orig-earlier":
+			o.PossDup, o.OrigSending = "Y", s.p.Stamp(time.Now().Add(-30*time.Second))
+		case "possdup-orig-later":
+			o.PossDup, o.OrigSending = "Y", s.p.Stamp(time.Now().Add(40*time.Second))
+			mon.feat["possdup-with-a-later-original-sending-time"] = true
+		case "stale-sending-time":
+			o.SendingTime = s.p.Stamp(time.Now().Add(-10 * time.Minute))
+		case "foreign-sender":
+			x := "SOMEONE"
+			o.Sender = &x
+		}
 		var f []byte
 		switch typ {
 		case "garbage":
@@ -158,17 +178,17 @@ func c08Property(t *rapid.T) {
 			f = []byte(rapid.SampledFrom([]string{"8=FIX.4.2\x019=5\x0135=D\x0110=000\x01", "8=\x019=\x0135=\x0110=\x01", "8=FIX.4.2\x019=12\x0135=D\x0134=\x0110=000\x01", "8=FIX.4.2\x019=0\x0110=000\x01",
 				"8=FIX.4.2\x019=3\x01x\x0110=1\x01"}).Draw(t, "bytes"))
 		case "A":
-			f = s.p.Frame("A", seq, logonBody(t, rapid.IntRange(0, 4).Draw(t, "flag") == 0 && cfg.begin != "FIX.4.0"), peer.Opt{})
+			f = s.p.Frame("A", seq, logonBody(t, rapid.IntRange(0, 4).Draw(t, "flag") == 0 && cfg.begin != "FIX.4.0"), o)
 		case "D":
-			f = s.p.Frame("D", seq, []fixwire.Field{fixwire.F(11, "X"+strconv.Itoa(seq)), fixwire.F(55, "IBM"), fixwire.F(54, "1")}, peer.Opt{})
+			f = s.p.Frame("D", seq, []fixwire.Field{fixwire.F(11, "X"+strconv.Itoa(seq)), fixwire.F(55, "IBM"), fixwire.F(54, "1")}, o)
 		case "1":
-			f = s.p.Frame("1", seq, []fixwire.Field{fixwire.F(112, "t")}, peer.Opt{})
+			f = s.p.Frame("1", seq, []fixwire.Field{fixwire.F(112, "t")}, o)
 		case "2":
-			f = s.p.Frame("2", seq, []fixwire.Field{fixwire.F(7, "1"), fixwire.F(16, "0")}, peer.Opt{})
+			f = s.p.Frame("2", seq, []fixwire.Field{fixwire.F(7, "1"), fixwire.F(16, "0")}, o)
 		case "4":
-			f = s.p.Frame("4", seq, []fixwire.Field{fixwire.F(36, strconv.Itoa(T+2))}, peer.Opt{})
+			f = s.p.Frame("4", seq, []fixwire.Field{fixwire.F(36, strconv.Itoa(T+2))}, o)
 		default:
-			f = s.p.Frame(typ, seq, nil, peer.Opt{})
+			f = s.p.Frame(typ, seq, nil, o)
 		}
 		ctx := s.ctxFor("in", f, false)
 		s.logf("inj %s (T=%d %s)", vk.Show(f), ctx.tBefore, ctx.stateBefore)
